@@ -307,6 +307,41 @@ theorem C13_authenticated_chains_to_matched_anchor (E : Env) (hpath : PathEndsAt
     · exact ((mem_interAdds E recs _ d).mp hd).1
     · exact ((mem_rootAdds E recs _ d).mp (List.mem_filter.mp hd).1).1
 
+/-- **C13 (an invalid path is refused, whatever makes it invalid).** Usable records exist, no usable
+DANE-EE record matches the server's own certificate, and the server certificate does NOT validly
+chain to the asserted anchors (X.509's verdict on the pools the code builds — for whatever reason:
+an expired, not yet valid, non-CA, wrong-purpose, name- or path-length-constrained CA certificate
+anywhere on the path, the anchor itself included, an expired or wrong-name leaf): the connection is
+refused with "No matching TLSA records". There is no second opinion. -/
+theorem C13_invalid_path_refused (E : Env) (recs : List Rec) (leaf : Cert) (rest : List Cert)
+    (hu : ∃ r ∈ recs, Usable r) (hee : ¬ EEMatch E recs leaf)
+    (hv : E.chainVerify (rootAdds E (taRecs recs) (leaf :: rest))
+      (interAdds E (taRecs recs) (leaf :: rest)) leaf = false) :
+    verifyDANE E recs true (leaf :: rest) = .ret false (some .noMatch) := by
+  obtain ⟨_, _, _, _, s5⟩ := verifyDANE_spec E recs true leaf rest
+  apply s5 rfl hu
+  rintro (h | ⟨_, h⟩)
+  · exact hee h
+  · rw [hv] at h; cases h
+
+/-- **C13 (one X.509 verdict decides).** `verifyDANE` consults X.509 path validation with ONE
+question — the pools it built from the presented chain, the leaf, the MX name, the current time —
+and nothing else of it: two worlds with the same record matching and the same CA flags whose
+validators agree on that one question (and may differ on every other one: other moments in time,
+other key usages, other pools) give the same result. A retry of the validation under relaxed
+options is a second question; the code asks none. -/
+theorem C13_one_x509_verdict_decides (m : Rec → Cert → Bool) (ca : Cert → Bool)
+    (cv cv' : List Cert → List Cert → Cert → Bool)
+    (recs : List Rec) (hs : Bool) (leaf : Cert) (rest : List Cert)
+    (hq : cv' (rootAdds ⟨m, ca, cv⟩ (taRecs recs) (leaf :: rest))
+        (interAdds ⟨m, ca, cv⟩ (taRecs recs) (leaf :: rest)) leaf =
+      cv (rootAdds ⟨m, ca, cv⟩ (taRecs recs) (leaf :: rest))
+        (interAdds ⟨m, ca, cv⟩ (taRecs recs) (leaf :: rest)) leaf) :
+    verifyDANE ⟨m, ca, cv'⟩ recs hs (leaf :: rest) = verifyDANE ⟨m, ca, cv⟩ recs hs (leaf :: rest) := by
+  have hr : ∀ ta ch, rootAdds ⟨m, ca, cv'⟩ ta ch = rootAdds ⟨m, ca, cv⟩ ta ch := fun _ _ => rfl
+  have hi : ∀ ta ch, interAdds ⟨m, ca, cv'⟩ ta ch = interAdds ⟨m, ca, cv⟩ ta ch := fun _ _ => rfl
+  simp only [verifyDANE, hr, hi, hq]
+
 /-- **C13 (refuse-iff).** With a non-empty peer chain, the connection is refused exactly when a
 record exists and TLS was not negotiated, or usable records exist and none matches. -/
 theorem C13_refuse_iff (E : Env) (recs : List Rec) (hs : Bool) (leaf : Cert) (rest : List Cert) :
@@ -1918,6 +1953,28 @@ example : verifyDANE exEnv [⟨3, 1, 1, 0, 0, 32⟩] true [0, 1, 2] = .ret true 
 example : verifyDANE exEnv [⟨2, 0, 1, 2, 0, 32⟩] true [0, 1, 2] = .ret true none := by decide
 -- the same record, root not presented: refused
 example : verifyDANE exEnv [⟨2, 0, 1, 2, 0, 32⟩] true [0, 1] = .ret false (some .noMatch) := by decide
+/-- the same certificates in a world where the ROOT certificate 2 is outside its validity period (or
+may have no CA below it): only the intermediate is a good anchor -/
+def exEnvBadRoot : Env := { exEnv with chainVerify := fun roots _ leaf => leaf == 0 && roots.contains 1 }
+/-- ... and one where the INTERMEDIATE certificate 1 is (expired, not yet valid, no CA, ...): the good
+leaf has no valid path to anything -/
+def exEnvBadInter : Env := { exEnv with chainVerify := fun _ _ _ => false }
+-- DANE-TA pinning the root, good leaf, full chain, every signature right — the path is not valid: refused
+example : verifyDANE exEnvBadInter [⟨2, 0, 1, 2, 0, 32⟩] true [0, 1, 2] = .ret false (some .noMatch) := by decide
+example : verifyDANE exEnvBadRoot [⟨2, 0, 1, 2, 0, 32⟩] true [0, 1, 2] = .ret false (some .noMatch) := by decide
+-- pinning the intermediate under the bad root: the path ends at the intermediate, authenticated
+example : verifyDANE exEnvBadRoot [⟨2, 0, 1, 1, 0, 32⟩] true [0, 1, 2] = .ret true none := by decide
+-- a DANE-EE record for the leaf authenticates whatever the path
+example : verifyDANE exEnvBadInter [⟨3, 1, 1, 0, 0, 32⟩] true [0, 1, 2] = .ret true none := by decide
+-- the hypotheses of `C13_invalid_path_refused` hold in that world
+example : verifyDANE exEnvBadInter [⟨3, 1, 1, 7, 0, 32⟩, ⟨2, 1, 1, 2, 0, 32⟩] true [0, 1, 2] = .ret false (some .noMatch) :=
+  C13_invalid_path_refused exEnvBadInter _ 0 [1, 2] ⟨⟨2, 1, 1, 2, 0, 32⟩, by simp, by decide⟩
+    (by rintro ⟨r, hr, _, _, hm⟩; simp at hr; rcases hr with rfl | rfl <;> simp [exEnvBadInter, exEnv] at hm) rfl
+-- `C13_one_x509_verdict_decides`: the two worlds differ (on the pin of the root) and agree on the one
+-- question asked for the pin of the intermediate
+example : verifyDANE exEnvBadRoot [⟨2, 0, 1, 1, 0, 32⟩] true [0, 1, 2] = verifyDANE exEnv [⟨2, 0, 1, 1, 0, 32⟩] true [0, 1, 2] :=
+  C13_one_x509_verdict_decides exEnv.recMatches exEnv.isCA exEnv.chainVerify exEnvBadRoot.chainVerify _ true 0 [1, 2] (by decide)
+example : verifyDANE exEnvBadRoot [⟨2, 0, 1, 2, 0, 32⟩] true [0, 1, 2] ≠ verifyDANE exEnv [⟨2, 0, 1, 2, 0, 32⟩] true [0, 1, 2] := by decide
 -- DANE-TA matching the (non-CA) leaf: refused
 example : verifyDANE exEnv [⟨2, 0, 1, 0, 0, 32⟩] true [0, 1, 2] = .ret false (some .noMatch) := by decide
 -- an unusable record (matching type 3) next to a mismatching usable one: refused; alone: neutral
